@@ -161,9 +161,16 @@ def decode(d):
         if d.bool():
             body += ";"
         sel = (", " if d.bool() else ",").join(r["sel"])
+        # comments in every position the grammar allows, on one line or spanning several
+        cm = lambda: d.choice(["/* c */", "/* %s{fill:lime} */" % sel, "/* two\n lines */", "/*\n * a block\n * comment {stroke:red}\n */"])
+        if d.chance(1, 8):
+            parts.append(cm())
+        if d.chance(1, 10) and ";" in body:
+            i = body.index(";") + 1
+            body = body[:i] + " " + cm() + " " + body[i:]
         parts.append("%s%s{%s%s}" % (sel, d.choice(["", " "]), d.choice(["", " "]), body))
         if d.chance(1, 8):
-            parts.append("/* %s{fill:lime} */" % sel)
+            parts.append(cm())
     doc["style_text"] = d.choice(["", "\n", " "]).join(parts)
     # inline styles become the style attribute
     for n in nodes:
